@@ -8,6 +8,7 @@ import (
 	"encoding/hex"
 	"encoding/json"
 	"fmt"
+	"github.com/ipld/go-ipld-prime/storage"
 	"io"
 	"os"
 	"os/exec"
@@ -77,7 +78,7 @@ const (
 	c18KeyC = "other-kez"
 )
 
-var c18Scenarios = []string{"put-new-noshard", "put-new-shard-exists", "put-existing", "stream-chunks-commit", "stream-abandon", "stream-commit-zero-key", "second-put", "two-puts-same-shard", "stream-large"}
+var c18Scenarios = []string{"put-new-noshard", "put-new-shard-exists", "put-existing", "stream-chunks-commit", "stream-abandon", "stream-commit-zero-key", "second-put", "two-puts-same-shard", "stream-large", "put-vec"}
 
 func c18Keys(scn string) []string {
 	if scn == "stress" {
@@ -222,6 +223,16 @@ func c18Child(args []string) int {
 			w.Write(c18Content(c18KeyA))
 			commit("")
 		}
+	case "put-vec":
+		// the vectored put of the storage package (for this store: the PutStream-based fallback of
+		// storage/funcs.go), the content handed over in five pieces — one write per piece, so a fault or a
+		// crash can fall between any two of them (a surviving mechanical mutant dropped the fallback's write error)
+		content := bytes.Repeat(c18Content(c18KeyA), 3)
+		var vec [][]byte
+		for i := 0; i < 5; i++ {
+			vec = append(vec, content[i*len(content)/5:(i+1)*len(content)/5])
+		}
+		rec(c18KeyA, storage.PutVec(ctx, st, c18KeyA, vec))
 	case "second-put":
 		rec(c18KeyA, st.Put(ctx, c18KeyA, c18Content(c18KeyA)))
 		rec(c18KeyC, st.Put(ctx, c18KeyC, c18Content(c18KeyC)))
@@ -279,6 +290,9 @@ func c18Verify(args []string) int {
 			if scn == "stream-large" && string(kb) == c18KeyA {
 				want = bytes.Repeat(want, 400)
 			}
+			if scn == "put-vec" && string(kb) == c18KeyA {
+				want = bytes.Repeat(want, 3)
+			}
 			if !bytes.Equal(got, want) {
 				bad("file %s holds %d bytes that are not the complete content (%d bytes) of key %q", rel, len(got), len(want), kb)
 			}
@@ -305,6 +319,9 @@ func c18Verify(args []string) int {
 		if scn == "stream-large" && k == c18KeyA {
 			want = bytes.Repeat(want, 400)
 		}
+		if scn == "put-vec" && k == c18KeyA {
+			want = bytes.Repeat(want, 3)
+		}
 		has, herr := st.Has(ctx, k)
 		got, gerr := st.Get(ctx, k)
 		switch {
@@ -330,6 +347,9 @@ func c18Verify(args []string) int {
 		want := c18Content(k)
 		if scn == "stream-large" && k == c18KeyA {
 			want = bytes.Repeat(want, 400)
+		}
+		if scn == "put-vec" && k == c18KeyA {
+			want = bytes.Repeat(want, 3)
 		}
 		if err := st.Put(ctx, k, want); err != nil {
 			bad("after the crash a new process cannot Put(%q): %v", k, err)
